@@ -117,7 +117,10 @@ def run_case(case, res, verbose=False):
                          f'{exc!r}\nparent={psrc!r} slot={O.path_str(path)} child={csrc!r} form={form}', case, case)
                 return
         res.outcomes[k + ('/valid' if exp_status == 'ok' else '/' + exp_status)] += 1
-        if exp_status == 'ok' and not isinstance(exc, NotImplementedError) and form in ('src', 'ast', 'fst'):
+        in_pattern = any(isinstance(O.get_path(ptree, path[:k]), ast.pattern) for k in range(len(path)))
+        own_pars_only = csrc.startswith('(') and '\n' in csrc  # a child that cannot be written without its parentheses
+        if exp_status == 'ok' and not isinstance(exc, NotImplementedError) and form in ('src', 'ast', 'fst') and \
+                not (in_pattern and own_pars_only):  # expressions inside patterns cannot be parenthesized: refusing is right
             res.fail(cid, 'refused-valid-request:' + exc.__class__.__name__,
                      f'{exc!r}\nparent={psrc!r} slot={O.path_str(path)} child={csrc!r} form={form}\n'
                      f'expected={ast.unparse(exp)!r}', case, case)
